@@ -94,7 +94,10 @@ def coq_cases(ctx, name, defs, groups):
 
 
 def mesh_of(m):
-    return {k: m[k] for k in ('node_ids', 'coords', 'blocks')}
+    d = {k: m[k] for k in ('node_ids', 'coords', 'blocks')}
+    if 'coord_dtype' in m.get('meta', {}):
+        d['coord_dtype'] = m['meta']['coord_dtype']
+    return d
 
 
 def labelling(m):
@@ -136,6 +139,16 @@ def poly_meshes(ctx):
         o['shuffle_elems'] = pat == 'unsorted'
         out.append(G.solid_mesh(rng, rng.choice([['hex', 'prism', 'tet'], ['prism', 'pyr', 'tet'],
                                                  ['hex', 'prism', 'pyr', 'tet']]), o, dims=(2, 2, 1)))
+    # integer coordinate arrays; node / element ids just below 2**53
+    for ks, dt, ids in ((['hex', 'tet'], 'int64', 'unsorted'), (['prism', 'pyr'], 'int32', 'sparse'),
+                        (['tet'], 'float64', 'huge'), (['hex', 'pyr'], 'float64', 'huge')):
+        o = G.random_opts(rng, jitter_ok=False)
+        o['node_ids'] = ids
+        o['elem_ids'] = 'huge' if ids == 'huge' else o['elem_ids']
+        o['shuffle_elems'] = False
+        m = G.solid_mesh(rng, ks, o, dims=(2, 1, 1))
+        m['meta']['coord_dtype'] = dt
+        out.append(m)
     # node ids beyond int32
     for ks in (['tet'], ['hex']):
         o = G.random_opts(rng)
@@ -282,7 +295,7 @@ def check_polyhedron(ctx, model_ok):
 COLLAPSE = [((0, 1), (4, 5)), ((1, 2), (5, 6)), ((2, 3), (6, 7)), ((3, 0), (7, 4))]
 
 
-def degen_mesh(rng, opts, with_prisms, bad_pattern=False):
+def degen_mesh(rng, opts, with_prisms, bad_pattern=False, others=()):
     nx = rng.randint(2, 4)
     pts, index, elems = [], {}, []
 
@@ -292,12 +305,13 @@ def degen_mesh(rng, opts, with_prisms, bad_pattern=False):
             pts.append(p)
         return index[p]
     for i in range(nx):
-        kind = rng.choice(['hex', 'w0', 'w1', 'w2', 'w3'] + (['prism'] if with_prisms else []))
+        kind = rng.choice(['hex', 'w0', 'w1', 'w2', 'w3'] + (['prism'] if with_prisms else [])
+                          + (list(others) if others else []))
         corners = [(i + c[0], c[1], c[2]) for c in G.HEXV]
         if kind == 'hex':
             elems.append(('hex', [pid(c) for c in corners], None))
-        elif kind == 'prism':
-            for ty, cs in G.cell_elements('prism'):
+        elif kind in ('prism', 'tet', 'pyr'):
+            for ty, cs in G.cell_elements(kind):
                 elems.append((ty, [pid((i + c[0], c[1], c[2])) for c in cs], None))
         else:
             (a, b), (c, d) = COLLAPSE[int(kind[1])]
@@ -319,6 +333,14 @@ def check_degeneracy(ctx, model_ok):
         o = G.random_opts(rng)
         o['shuffle_elems'] = rng.random() < 0.5
         meshes.append(degen_mesh(rng, o, with_prisms=k % 2 == 0, bad_pattern=(k % 6 == 5)))
+    # mixed meshes: hex (some degenerate) + tet + pyramid (+ prism): other types must survive
+    for k in range(4 if ctx.tier == 'quick' else 20):
+        o = G.random_opts(rng)
+        o['shuffle_elems'] = k % 2 == 1
+        m = degen_mesh(rng, o, with_prisms=k % 2 == 0, others=[('tet', 'pyr'), ('tet',), ('pyr',)][k % 3])
+        if not any(len(set(c)) < 8 for b in m['blocks'] if b[0] == 'hex' for c in b[2]):
+            pass
+        meshes.append(m)
     # single-type hex meshes whose element ids are NOT ascending in storage
     for pat in list(G.PATTERN_MODES) + ['unsorted', 'unsorted']:
         o = G.random_opts(rng)
@@ -336,6 +358,9 @@ def check_degeneracy(ctx, model_ok):
         n_deg = sum(1 for c in blocks['hex'][2] if len(set(c)) < 8)
         ctx.count('degen:degenerate hexes:%d' % min(n_deg, 3))
         ctx.count('degen:with prism block' if 'prism' in blocks else 'degen:hex only')
+        other_types = sorted(t for t in blocks if t not in ('hex', 'prism'))
+        if other_types:
+            ctx.count('degen:other types present:' + '+'.join(other_types))
         ctx.case(['degen', m['node_ids'], m['coords'], m['blocks']],
                  sample={'op': 'resolve_degeneracy', 'blocks': [[b[0], b[1]] for b in m['blocks']],
                          'after': [[b[0], b[1]] for b in r.get('after_blocks', [])] or r.get('error')})
@@ -355,6 +380,12 @@ def check_degeneracy(ctx, model_ok):
             impl = f'(Ok ({h}, {p}))'
             ctx.count('degen:outcome:ok')
         items.append((i, f'degen_ok degeneracy_patterns {hexes} {prisms} {impl}'))
+        if 'after_blocks' in r:
+            ab = {b[0]: b for b in r['after_blocks']}
+            src = lib.coq_list([f'({lib.coq_str(t)}, {rows_lit(*blocks[t][1:])})' for t in other_types])
+            got = lib.coq_list([f'({lib.coq_str(t)}, {rows_lit(*ab[t][1:])})'
+                                for t in sorted(ab) if t not in ('hex', 'prism')])
+            items.append((1000 + i, f'others_ok {src} {got}'))
         # ---- property oracle
         if 'after_blocks' in r:
             problems = []
@@ -433,7 +464,8 @@ def check_degeneracy(ctx, model_ok):
         else:
             bad = out['corr']
     for i in bad[:20]:
-        m = meshes[i]
+        m = meshes[i % 1000]
+        i = i % 1000
         ctx.violation('correspondence', {'op': 'resolve_degeneracy', 'mesh': mesh_of(m)},
                       'blocks equal to the model built from the translated patterns',
                       {k: res[i].get(k) for k in ('after_blocks', 'error')},
@@ -499,7 +531,16 @@ def check_positive(ctx, model_ok):
         items.append((i, f'positive_ok permute_tet {rows} {rows_lit(ab[1], ab[2])}'))
         problems = []
         before = dict(zip(r['before']['ids'], map(hexq, r['before']['values'])))
-        for key in ('after', 'after_same_object'):
+        if r.get('default_metrics_raises'):
+            problems.append('after_same_object: calculate_element_metrics() still raises (negative element)')
+        if 'second_error' in r:
+            problems.append('second call: ' + r['second_error'])
+        elif r.get('after_second_blocks') != r['after_blocks']:
+            problems.append('second call: make_elements_positive is not idempotent (connectivity changed again)')
+        for key in ('after', 'after_same_object', 'after_same_object_centroid', 'after_same_object_metrics',
+                    'after_second'):
+            if key not in r:
+                continue
             if 'values' not in r[key]:
                 problems.append(f'{key}: {r[key].get("error")}')
                 continue
